@@ -104,6 +104,25 @@ func gen37(t *rapid.T, env *ev.Env) Case {
 		size := multipartThreshold + rapid.SampledFrom([]int{1, 2, 4096, multipartThreshold - 1, multipartThreshold, multipartThreshold + 1, 2*multipartThreshold + 77}).Draw(t, "bigExtra")
 		o.Body = &gen.BodySpec{Kind: rapid.SampledFrom([]string{"zero", "rand"}).Draw(t, "bigKind"), Len: size, Seed: uint64(rapid.IntRange(0, 3).Draw(t, "bigSeed"))}
 		o.B = 0
+		// the multipart path builds its own options from (tags, metadata, class): every subset of the three
+		// is drawn with equal weight (seeded defect S-C37-1 needs "class only")
+		mask := (rapid.IntRange(0, 7).Draw(t, "bigMaskA") + rapid.IntRange(0, 7).Draw(t, "bigMaskB")*3) % 8
+		if mask&1 == 0 {
+			o.Tags = nil
+		} else if len(o.Tags) == 0 {
+			o.Tags = map[string]string{"env": "prod"}
+		}
+		if mask&2 == 0 {
+			o.Meta = nil
+		} else if o.Meta == nil {
+			o.Meta = &prog.Meta{User: map[string]string{"a": "v"}}
+		}
+		if mask&4 == 0 {
+			o.Class = nil
+		} else if o.Class == nil || *o.Class == "STANDARD" {
+			cl := rapid.SampledFrom(allClasses[1:]).Draw(t, "bigClass")
+			o.Class = &cl
+		}
 		c.Src = append(c.Src, o)
 	} else if (rapid.IntRange(0, 63).Draw(t, "edgeHi")*64+rapid.IntRange(0, 63).Draw(t, "edgeLo")*37)%16 == 0 {
 		// exactly at / just below the threshold: single PutObject path
@@ -521,6 +540,14 @@ func directed(env *ev.Env) []Case {
 		mk([]prog.Op{big(2*multipartThreshold+12345, "zero")}),
 		// exactly the threshold
 		mk([]prog.Op{big(multipartThreshold, "zero")}),
+		// multipart path with each attribute alone (the adapter builds its options from tags / metadata / class)
+		mk([]prog.Op{
+			{Kind: prog.OpPut, B: 0, K: 0, Body: &gen.BodySpec{Kind: "zero", Len: multipartThreshold + 1, Seed: 1}, Class: sp("STANDARD_IA")},
+			{Kind: prog.OpPut, B: 0, K: 1, Body: &gen.BodySpec{Kind: "zero", Len: multipartThreshold + 2, Seed: 2}, Tags: map[string]string{"only": "tags"}},
+			{Kind: prog.OpPut, B: 0, K: 2, Body: &gen.BodySpec{Kind: "zero", Len: multipartThreshold + 3, Seed: 3}, Meta: &prog.Meta{User: map[string]string{"only": "meta"}}},
+			{Kind: prog.OpPut, B: 0, K: 3, Body: &gen.BodySpec{Kind: "zero", Len: multipartThreshold + 4, Seed: 4}, ContentType: sp("x/only-content-type")},
+			{Kind: prog.OpPut, B: 0, K: 4, Body: &gen.BodySpec{Kind: "zero", Len: multipartThreshold + 5, Seed: 5}, Meta: &prog.Meta{Redirect: sp("/only-redirect")}},
+		}),
 		// non-empty destination, same key
 		mk([]prog.Op{big(10, "rand")}, prog.Op{Kind: prog.OpCreateBucket, B: 0}, prog.Op{Kind: prog.OpPut, B: 0, K: 1, Body: &gen.BodySpec{Kind: "text", Len: 7}}),
 		// two buckets, the second one conflicts
